@@ -233,12 +233,8 @@ func (d *Driver) Project() (Post, []byte, []byte, string) {
 		case types.RuleEngineOff:
 			p.Engine = "Off"
 		}
-		if r, err := d.itx.RequestBodyReader(); err == nil {
-			reqB, _ = io.ReadAll(r)
-		}
-		if r, err := d.itx.ResponseBodyReader(); err == nil {
-			respB, _ = io.ReadAll(r)
-		}
+		reqB = readEveryWay(d.itx.RequestBodyReader)
+		respB = readEveryWay(d.itx.ResponseBodyReader)
 		v := d.itx.Variables()
 		p.ReqErr = v.InboundDataError().Get() == "1"
 		p.RespErr = v.OutboundDataError().Get() == "1"
@@ -451,4 +447,62 @@ func Features(e *Edge) []string {
 	}
 	sort.Strings(out)
 	return out
+}
+
+// readEveryWay reads a body back through fresh readers in every manner a caller may use - all at once,
+// in small reads, one byte and then io.Copy of the rest (which uses the reader's WriteTo when it has
+// one), io.Copy alone, a short read followed by ReadAll - and returns the content. The manners must
+// agree (the bytes read back are the bytes stored, however they are read); if one does not, its
+// content is returned so that the comparison with the specification reports it.
+func readEveryWay(get func() (io.Reader, error)) []byte {
+	r, err := get()
+	if err != nil {
+		return nil
+	}
+	all, _ := io.ReadAll(r)
+	manners := []func(io.Reader) []byte{
+		func(r io.Reader) []byte { // small reads
+			var out []byte
+			buf := make([]byte, 3)
+			for {
+				n, err := r.Read(buf)
+				out = append(out, buf[:n]...)
+				if err != nil {
+					return out
+				}
+			}
+		},
+		func(r io.Reader) []byte { // one byte, then io.Copy
+			one := make([]byte, 1)
+			n, _ := r.Read(one)
+			var rest bytes.Buffer
+			_, _ = io.Copy(&rest, r)
+			return append(one[:n:n], rest.Bytes()...)
+		},
+		func(r io.Reader) []byte { // io.Copy alone
+			var b bytes.Buffer
+			_, _ = io.Copy(&b, r)
+			return b.Bytes()
+		},
+		func(r io.Reader) []byte { // half of it, then the rest at once
+			half := make([]byte, (len(all)+1)/2)
+			n, _ := io.ReadFull(r, half)
+			rest, _ := io.ReadAll(r)
+			return append(half[:n:n], rest...)
+		},
+	}
+	for _, m := range manners {
+		r2, err := get()
+		if err != nil {
+			return all
+		}
+		if got := m(r2); !bytes.Equal(got, all) {
+			if len(got) == len(all) {
+				// same length, different bytes: make the difference visible to a length-only comparison too
+				return append(got, 0)
+			}
+			return got
+		}
+	}
+	return all
 }
